@@ -151,7 +151,7 @@ __CPROVER_loop_invariant(HIT_INV(BosonicIndexV > g_V || (BosonicIndexV == g_V &&
 __CPROVER_decreases(FermionicMatrixSize - NupIndexM)
 //@end
 
-//@harness h_MC4_fill enforce=MC4_fill props=C15,C17 min_obl=1640 reach=3 timeout=900 defs=-DMON_FILL tier=thorough
+//@harness h_MC4_fill enforce=MC4_fill props=C15,C17 min_obl=1640 reach=3 timeout=900 defs=-DMON_FILL
 void h_MC4_fill(void)
 {
   struct MC4 *c; struct Vertex4 *src; long N;
